@@ -349,6 +349,32 @@ func init() {
 		s.block(fr.g, "time.Sleep", func() bool { return done })
 		return nil
 	})
+	// sym.ProcessExit(): the model process ends: all goroutines other than the caller die, their
+	// timers never fire; what they did happens-before everything the caller does afterwards
+	register(symPkg+"ProcessExit", func(fr *frame, a []value) value {
+		s := fr.sched()
+		if fr.g != s.gs[0] {
+			panic(unsupported("sym.ProcessExit from a goroutine other than the entry's"))
+		}
+		for _, o := range s.gs[1:] {
+			for k, v := range o.vc {
+				if v > fr.g.vc[k] {
+					fr.g.vc[k] = v
+				}
+			}
+		}
+		s.killFrom(1)
+		return nil
+	})
+	// sym.ExternalEvent(name): blocks until the scheduler delivers the event
+	register(symPkg+"ExternalEvent", func(fr *frame, a []value) value {
+		s := fr.sched()
+		done := false
+		t := s.addTimer(1<<60, func() { done = true })
+		t.external = true
+		s.block(fr.g, "sym.ExternalEvent", func() bool { return done })
+		return nil
+	})
 	register("time.After", func(fr *frame, a []value) value {
 		s := fr.sched()
 		if r := fr.run(); r.flags["fsVisible"] != 0 && fr.g != nil {
